@@ -4,6 +4,12 @@ import Req.H2.Meta
 import Req.H3.Varint
 import Req.H3.Frame
 import Req.H3.Fields
+import Req.H2.FieldsX
+import Req.H2.WriteBlock
+import Req.H2.FrameRfc
+import Req.H3.Stream
+import Req.H2.Hpack
+import Req.Driver.WireUtil
 /-! Driver lanes of C05 (HTTP/2 framer, QUIC varints, HTTP/3 frames/SETTINGS/field sections). -/
 namespace Req.Driver.L.C05
 open Req.Proto
@@ -256,6 +262,7 @@ def sortPairs (l : List (Nat × Nat)) : List (Nat × Nat) := l.foldr insSorted [
 
 def showH3Err : Err → String
   | .eof => "err:eof"
+  | .unexpectedEOF => "err:ueof"
   | .reserved t => s!"err:reserved:{t}"
   | .settingsTooLarge => "err:settings-size"
   | .duplicateSetting _ => "err:dup"
@@ -300,6 +307,95 @@ def laneH3Append : List String → String
     | _, _, _ => "bad-op"
   | _ => "bad-op"
 end h3
+
+/-! ### HPACK primitives -/
+section hpack
+open Req.H2.Hpack
+
+def showHpErr : Err → String
+  | .needMore => "err:needmore"
+  | .overflow => "err:overflow"
+  | .huffman => "err:huffman"
+  | .indexedField => "err:indexed"
+  | .incrementalIndex => "err:incremental"
+  | .tableSizeUpdate => "err:tablesize"
+  | .indexedName => "err:indexedname"
+
+/-- `c05hpint enc <n> <hi> <i>` → bytes; `c05hpint dec <n> <bytes>` → `ok <value> <consumed>` |
+`need-more` | `overflow`. -/
+def laneHpInt : List String → String
+  | ["enc", n, hi, i] => match n.toNat?, hi.toNat?, i.toNat? with
+    | some n, some hi, some i => if n < 1 || n > 8 then "bad-op" else encodeHex (encodeInt n hi i)
+    | _, _, _ => "bad-op"
+  | ["dec", n, h] => match n.toNat?, decodeHex h with
+    | some n, some b =>
+      if n < 1 || n > 8 then "bad-op" else
+      match readInt n b with
+      | .ok (v, rest) => s!"ok {v} {b.length - rest.length}"
+      | .error .needMore => "need-more"
+      | .error .overflow => "overflow"
+    | _, _ => "bad-op"
+  | _ => "bad-op"
+
+def showHpFields (fs : List Field) : String :=
+  if fs.isEmpty then "-" else
+  ",".intercalate (fs.map fun f => b01 f.never ++ ":" ++ encodeHex f.name ++ ":" ++ encodeHex f.value)
+
+/-- `c05hplit enc <never flags: string of 0/1, or -> <names> <values>` → block;
+`c05hplit dec <block>` → `ok <fields>` | `err:<kind>`. -/
+def laneHpLit : List String → String
+  | ["enc", fl, ns, vs] => match decodeList ns, decodeList vs with
+    | some ns, some vs =>
+      let flags := if fl == "-" then [] else fl.toList.map (· == '1')
+      if ns.length != vs.length || ns.length != flags.length then "bad-op"
+      else encodeHex (encodeBlock ((flags.zip (ns.zip vs)).map fun x => ⟨x.1, x.2.1, x.2.2⟩))
+    | _, _ => "bad-op"
+  | ["dec", h] => match decodeHex h with
+    | some b => match decodeBlock b with
+      | .ok fs => "ok " ++ showHpFields fs
+      | .error e => showHpErr e
+    | none => "bad-op"
+  | _ => "bad-op"
+end hpack
+
+/-! ### HTTP/3 receive loop and the SETTINGS specification -/
+section h3stream
+open Req.H3.Frame Req.H3.Stream
+
+def showEvent : Event → String
+  | .data p => "data:" ++ encodeHex p
+  | .headers p => "headers:" ++ encodeHex p
+  | .settings s => s!"settings:{b01 s.datagram}:{b01 s.extendedConnect}:{showOther (sortPairs s.other)}"
+  | .truncatedPayload l got => s!"trunc:{l}:{encodeHex got}"
+  | .err e => showH3Err e
+  | .eof => "eof"
+
+/-- `c05h3stream <bytes>` : the frame-level receive loop. -/
+def laneH3Stream : List String → String
+  | [h] => match decodeHex h with
+    | some b => ";".intercalate ((parseStream (b.length + 2) b).map showEvent)
+    | none => "bad-op"
+  | _ => "bad-op"
+
+instance (ps : List (Nat × Nat)) : Decidable (SettingsOK ps) := by unfold SettingsOK; infer_instance
+
+/-- `c05h3settingsspec <payload>` : the DECLARATIVE side of `h3_settings_accept_iff` /
+`h3_settings_eof_iff` evaluated on a payload: `ok <dg> <ec> <other>` when it is a sequence of
+complete pairs satisfying `SettingsOK`, `eof` when it ends inside a pair after acceptable pairs,
+`reject` otherwise. -/
+def laneH3SettingsSpec : List String → String
+  | [h] => match decodeHex h with
+    | some b =>
+      let r := decodePairs (b.length + 1) b
+      if SettingsOK r.1 then
+        if r.2 then "eof"
+        else
+          let s := settingsOf r.1
+          s!"ok {b01 s.datagram} {b01 s.extendedConnect} {showOther (sortPairs s.other)}"
+      else "reject"
+    | none => "bad-op"
+  | _ => "bad-op"
+end h3stream
 
 /-! ### HTTP/3 field sections -/
 section h3fields
@@ -358,7 +454,113 @@ def laneH3Fields : List String → String
   | _ => "bad-op"
 end h3fields
 
+/-! ### emitted request field sections (`encodeHeaders` of both writers) -/
+section emit
+open Req.H2
+
+def encodeFieldsE (l : List (Bytes × Bytes)) : String :=
+  if l.isEmpty then "-" else ",".intercalate (l.map fun f => encodeHex f.1 ++ ":" ++ encodeHex f.2)
+
+def showFErrE : FErr → String
+  | .nonAsciiHost => "err:outside"
+  | .invalidHost => "err:host"
+  | .invalidPath => "err:path"
+  | .invalidHeader => "err:header"
+  | .headerListTooLarge => "err:toolarge"
+
+/-- Canonical form of a field list whose regular part depends on Go's map iteration order:
+`<pseudo fields in wire order> <regular fields, sorted> <canonical names of the LISTED regular
+fields in wire order> <shape: p/r per field in wire order> <requestSectionOK>`.
+The regular fields are sorted STABLY by name alone when no two keys of the header map share a
+lower-case form (then the wire order of the values of one name is determined and is compared),
+and by (name, value) otherwise. -/
+def showEmitted (hdr : List Req.HeaderSort.KV) (fs : List (Bytes × Bytes)) : String :=
+  let pseudo := fs.filter fun f => isPseudoNameB f.1
+  let regular := fs.filter fun f => !isPseudoNameB f.1
+  let lks := hdr.map fun kv => Req.Ascii.lower kv.key
+  let collide := lks.eraseDups.length != lks.length
+  let sorted :=
+    if collide then regular.mergeSort fun a b =>
+      if a.1 == b.1 then Req.BStr.le a.2 b.2 else Req.BStr.le a.1 b.1
+    else regular.mergeSort fun a b => Req.BStr.le a.1 b.1
+  let order := Req.H1.orderList hdr
+  let listed := regular.filterMap fun f =>
+    if (Req.HeaderSort.lastIndex order f.1).isSome
+    then some (Req.Ascii.canonicalMIMEHeaderKey f.1) else none
+  let shape := String.ofList (fs.map fun f => if isPseudoNameB f.1 then 'p' else 'r')
+  sp ["ok", encodeFieldsE pseudo, encodeFieldsE sorted, encodeList listed,
+      (if shape.isEmpty then "-" else shape), b01 (requestSectionOK fs)]
+
+/-- `c05emit <h2|h3> <method> <rawurl> <host> <hdr> <cl> <hasBody> <noBody> <gzip>
+<maxHeaderListSize|-> <proto> <trailers>` -/
+def laneEmit : List String → String
+  | [fl, m, raw, host, hdr, cl, hb, nb, gz, lim, proto, trailers] =>
+    let fl? : Option Flavor :=
+      if fl == "h2" then some .h2 else if fl == "h3" then some .h3 else none
+    let lim? : Option (Option Nat) := if lim == "-" then some none else lim.toNat?.map some
+    match fl?, decodeHex m, decodeHex raw, decodeHex host, Req.Driver.Wire.decodeHdr hdr, decodeInt cl,
+          bool? hb, bool? nb, bool? gz, lim?, decodeHex proto, decodeHex trailers with
+    | some fl, some m, some raw, some host, some hdr, some cl, some hb, some nb, some gz, some lim,
+      some proto, some trailers =>
+      match Req.Url.parse raw with
+      | .error _ => "bad-op"
+      | .ok u =>
+        let x : XReq := { base := { method := m, url := u, host := host, header := hdr,
+                                    contentLength := cl, hasBody := hb, noBody := nb, addGzip := gz,
+                                    maxHeaderList := lim },
+                          proto := proto, trailers := trailers }
+        match fieldsX fl x with
+        | .error e => showFErrE e
+        | .ok fs => showEmitted hdr fs
+    | _, _, _, _, _, _, _, _, _, _, _, _ => "bad-op"
+  | _ => "bad-op"
+
+/-- `c05reqsec <names> <values>`: the decidable request-section check on a DECODED list. -/
+def laneReqSec : List String → String
+  | [ns, vs] => match decodeList ns, decodeList vs with
+    | some ns, some vs =>
+      if ns.length != vs.length then "bad-op" else b01 (requestSectionOK (ns.zip vs))
+    | _, _ => "bad-op"
+  | _ => "bad-op"
+end emit
+
+/-! ### `ClientConn.writeHeaders`: a header block as HEADERS + CONTINUATION frames -/
+section wblock
+open Req.H2.Frame
+
+/-- `c05wblock <streamID> <endStream> <dep> <exclusive> <weight> <maxFrameSize> <block>` → the bytes
+written (`panic` = Go's slice-bounds panic). -/
+def laneWBlock : List String → String
+  | [sid, es, dep, ex, w, mf, blk] =>
+    match sid.toNat?, bool? es, dep.toNat?, bool? ex, w.toNat?, mf.toNat?, decodeHex blk with
+    | some sid, some es, some dep, some ex, some w, some mf, some blk =>
+      match writeBlock sid es ⟨dep, ex, w⟩ mf blk with
+      | .ok b => encodeHex b
+      | .error .sliceBounds => "panic"
+    | _, _, _, _, _, _, _ => "bad-op"
+  | _ => "bad-op"
+end wblock
+
+/-! ### the RFC 9113 §6 verdict on one received frame -/
+section verdict
+open Req.H2.Frame
+
+/-- `c05h2verdict <type> <flags> <streamID (31 bit)> <payload>` → `accept` | error class. -/
+def laneH2Verdict : List String → String
+  | [t, f, s, p] => match t.toNat?, f.toNat?, s.toNat?, decodeHex p with
+    | some t, some f, some s, some p =>
+      match Rfc.verdict ⟨p.length, t, f, s⟩ p with
+      | .accept => "accept"
+      | .reject e => showRErr e
+    | _, _, _, _ => "bad-op"
+  | _ => "bad-op"
+end verdict
+
 def lanes : List (String × (List String → String)) := [
+  ("c05emit", laneEmit),
+  ("c05reqsec", laneReqSec),
+  ("c05wblock", laneWBlock),
+  ("c05h2verdict", laneH2Verdict),
   ("c05vappend", laneVAppend),
   ("c05vlen", laneVLen),
   ("c05vappendlen", laneVAppendLen),
@@ -379,6 +581,10 @@ def lanes : List (String × (List String → String)) := [
   ("c05wraw", laneWRaw),
   ("c05h2meta", laneH2Meta),
   ("c05h3next", laneH3Next),
+  ("c05hpint", laneHpInt),
+  ("c05hplit", laneHpLit),
+  ("c05h3stream", laneH3Stream),
+  ("c05h3settingsspec", laneH3SettingsSpec),
   ("c05h3settings", laneH3Settings),
   ("c05h3append", laneH3Append),
   ("c05h3fields", laneH3Fields)
